@@ -82,7 +82,7 @@ def cases(tier, seed, shard, nshards):
                 k += 1
                 if k % nshards != shard:
                     continue
-                if tier == "quick" and (ei * 131 + ii * 17 + slot) % 9:
+                if tier == "quick" and (ei * 131 + ii * 17 + slot) % 2:
                     continue
                 yield {"k": "term", "e": e["label"], "slot": slot, "pair": list(PAIRS[(ei + ii) % 4]), "inner": inner["label"],
                        "islot": (ei + ii) % max(1, inner["arity"])}
@@ -92,7 +92,7 @@ def cases(tier, seed, shard, nshards):
                 k += 1
                 if k % nshards == shard:
                     yield {"k": "stmt", "d": d, "s": name, "pair": list(pair)}
-    n = (2000 if tier == "quick" else 200000) // nshards
+    n = (16000 if tier == "quick" else 300000) // nshards
     for _ in range(n):
         yield {"k": "random", "seed": rnd.getrandbits(40), "pair": list(rnd.choice(PAIRS[:6]))}
 
